@@ -110,7 +110,7 @@ def oracle(case, out):
     for n, s in enumerate(steps):
         deliveries.append(s["id"])
         if not s["same"]:
-            return ("stash:different-message", "delivery %d: the context carries a different message object than the one sent with identity %d" % (n, s["id"]), {"delivery": n})
+            return ("stash:different-message", "delivery %d of identity %d: the context does not carry the message object that was sent together with its sender" % (n, s["id"]), {"delivery": n})
         for r in s["res"]:
             a = r["a"]
             if not case["buf"]:
